@@ -5,6 +5,7 @@ from ..core import Result, HarnessBug
 from ..vm import Prog, expect_ok, expect_exc
 
 ID = "C16"
+ALT_BUILD = True          # a quarter of the workers run the gcc -O0 build (core.py)
 LEVEL = "exploration"
 BUDGET = {"quick": 2500, "thorough": 750000}
 RULE = ("case = op list (assign, concat, append, resize 0/<len/==len/>len (grow by 1-50 or up to a buffer-size boundary), rem, "
